@@ -10,8 +10,8 @@ NOTE = ("Trusted base: rustc nightly MIR dump of /repo's working tree, the mirsy
         "natively compiled crate first; a sample of passing paths is re-run natively and must agree. Nothing is claimed outside the stated bounds.")
 
 CLAIMED = {
-    "C01": ("Tree level: RevisionTree built by add / unvalidated_add+validate in every order of learning equals the rule for all record sets up to 3 (thorough 4) records. Melda level, executed from MIR: "
-            "every symbolic sequence of up to 3 (thorough 4) operations over {update, commit (+reopen comparison), meld+refresh in both directions, unstage, delete_object, stage_full_snapshot, resolve_as, reload} "
+    "C01": ("Tree level: RevisionTree built by add / unvalidated_add+validate in every order of learning equals the rule for all record sets up to 3 records (quick: digests in {a,b,r} and one hash order for 3 records; thorough: all hash orders and [0-9a-z] digests). Melda level, executed from MIR: "
+            "every symbolic sequence of up to 3 operations (thorough: 6 instead of 3 document versions) over {update, commit (+reopen comparison), meld+refresh in both directions, unstage, delete_object, stage_full_snapshot, resolve_as, reload} "
             "on two replicas followed by exchange to a fixpoint: both replicas, a replica fed by plain file copy with refreshes at symbolic points and a replica opened by one reload expose the same state; "
             "all delivery orders of a 2-commit history; identical revisions in two blocks; mixed file-copy + meld routes; a pack first seen half copied.", "DESIGN.md §5 C01"),
     "C02": ("Melda level, executed from MIR: the files of a linear 2-commit history (all 24 orders, one full reload at a symbolic point) and of a concurrent+merge history (all 720 orders of 6 files) are "
@@ -24,7 +24,7 @@ CLAIMED = {
             "object / string fields with symbolic content appearing, disappearing, changing kind; a flattened key changing kind; sibling anonymous sub-objects and id-only elements; identifiers and strings "
             "starting with the escape characters) is submitted: read() equals it with only identifiers added; resubmission stages nothing; commit result matches has_staging; an idle commit writes nothing; "
             "reopened replica equal; also while conflicts are pending. Found two defects (fixed).", "DESIGN.md §5 C04"),
-    "C05": ("RevisionTree (add / unvalidated_add / validate / is_valid_cached / get_leafs / get_winner) and Revision order executed from MIR: for ALL sets of up to 3 (thorough 4) change records of every shape "
+    "C05": ("RevisionTree (add / unvalidated_add / validate / is_valid_cached / get_leafs / get_winner) and Revision order executed from MIR: for ALL sets of up to 3 change records of every shape "
             "(creations, updates, deletions, resolution markers, dangling parents of index 1 and 2, duplicates), symbolic digests, every order of learning and the explored hash-iteration orders, leaves and "
             "winner equal the stated rule evaluated by an independent oracle.", "DESIGN.md §5 C05"),
     "C06": ("utils::merge_arrays for ALL pairs of duplicate-free sequences up to length 4 (thorough 6) over an unbounded element domain: no loss / duplication / invention, order clauses. Melda level: two "
